@@ -265,6 +265,33 @@ def r13e(ctx, rep, cr):
     rep.floor('R13e', 'phase stores during replay', n, 1)
 
 
+def r13f(ctx, rep, cr):
+    rep.rule('R13f', 'the coordinator never discards its own log on the way: no DistributedTxCoordinator function other than the explicit '
+                     'administrative truncate_wal reaches TxWal::truncate — not begin / record_vote / commit / abort, and in particular not '
+                     'recover / recover_from_wal. Replay forgets transactions that are still collecting votes, so "nothing to recover" is '
+                     'not "nothing in flight": a log emptied by a recovery pass loses the TxBegin and the votes of a live transaction, '
+                     'whose later PhaseChange{Committing} then has no begin record and is ignored by the next replay')
+    cg = A.CallGraph([cr])
+    goal = lambda x: re.search(r'tx_wal::TxWal(::<.*>)?::truncate$', x) is not None
+    n = 0
+    admin = T.COORD + 'truncate_wal'
+    if admin in cr.fns:
+        rep.analysed(cr.fns[admin])
+    for name, f in sorted(cr.fns.items()):
+        if not name.startswith(T.COORD) or '{closure' in name or name == admin:
+            continue
+        n += 1
+        direct = any(goal(c.resolved) for h in A.with_closures(cr.fns, name) for c in A.calls(h))
+        p = [name] if direct else cg.path(name, goal)
+        if p:
+            rep.analysed(f)
+            rep.violation('R13f', f, 'log-truncated-by-operation', f.loc(),
+                          '%s reaches TxWal::truncate (%s): records of transactions that are still in flight are dropped from the log' %
+                          (lib.short(name), ' → '.join(lib.short(x) for x in p)))
+    rep.holds('R13f', admin, 'only truncate_wal truncates', '%d other coordinator functions checked' % n)
+    rep.floor('R13f', 'coordinator functions checked', n, 5)
+
+
 def run(ctx, rep):
     cr = ctx.crate('tensor_chain')
     wal_rules.r02b(ctx, rep, ['TxWal'])
@@ -273,6 +300,7 @@ def run(ctx, rep):
     wal_rules.r02g(ctx, rep, ['TxWal'])
     wal_rules.r02h(ctx, rep, ['TxWal'])
     wal_rules.r02i(ctx, rep, ['TxWal'])
+    wal_rules.r02j(ctx, rep, ['TxWal'])
     c03.r03c(ctx, rep, cr)
     c03.r03d(ctx, rep, cr)
     c03.r03e(ctx, rep, cr)
@@ -281,3 +309,4 @@ def run(ctx, rep):
     r13c(ctx, rep, cr)
     r13d(ctx, rep, cr)
     r13e(ctx, rep, cr)
+    r13f(ctx, rep, cr)
